@@ -1,11 +1,11 @@
 package core
 
 import (
-	"sort"
 	"fmt"
 	"go/constant"
 	"go/token"
 	"go/types"
+	"sort"
 	"strings"
 
 	"golang.org/x/tools/go/ssa"
@@ -80,7 +80,17 @@ func CalleeID(c ssa.CallInstruction) string {
 	if b, ok := c.Common().Value.(*ssa.Builtin); ok {
 		return "builtin." + b.Name()
 	}
-	return ObjID(CalleeObj(c))
+	id := ObjID(CalleeObj(c))
+	if len(funcAlias) > 0 && strings.HasPrefix(strings.TrimPrefix(id, "(*"), ModPath) || len(funcAlias) > 0 && strings.HasPrefix(strings.TrimPrefix(id, "("), ModPath) {
+		short := strings.ReplaceAll(strings.ReplaceAll(id, ModPath+"/", ""), ModPath, "")
+		if old, ok := funcAlias[short]; ok {
+			// rebuild the full id of the old name: same package path, old last component
+			if i, j := strings.LastIndex(id, "."), strings.LastIndex(old, "."); i >= 0 && j >= 0 {
+				return id[:i] + old[j:]
+			}
+		}
+	}
+	return id
 }
 
 // IsCallTo reports whether v (a value or instruction) is a call whose callee id has one of the
@@ -281,7 +291,15 @@ func fieldName(t types.Type, i int) string {
 		t = p.Elem()
 	}
 	if s, ok := t.Underlying().(*types.Struct); ok && i < s.NumFields() {
-		return s.Field(i).Name()
+		name := s.Field(i).Name()
+		if len(fieldAlias) > 0 {
+			if nt, ok := t.(*types.Named); ok && nt.Obj().Pkg() != nil {
+				if old, ok := fieldAlias[nt.Obj().Pkg().Path()+"."+nt.Obj().Name()+"."+name]; ok {
+					return old
+				}
+			}
+		}
+		return name
 	}
 	return fmt.Sprintf("f%d", i)
 }
@@ -886,6 +904,22 @@ func Derives(v ssa.Value, pred func(ssa.Value) bool, o DeriveOpts) bool {
 								}
 							}
 						}
+					case *ssa.Slice:
+						// the local array handed as a slice to a call that fills it (subtle.XORBytes(dst[:], a, b),
+						// copy(dst[:], src), ...)
+						if o.ThroughCalls && r.X == ssa.Value(x) {
+							if rr := r.Referrers(); rr != nil {
+								for _, r2 := range *rr {
+									if ci, ok := r2.(ssa.CallInstruction); ok {
+										for _, a := range CallArgs(ci) {
+											if a != ssa.Value(r) && rec(a, d+1) {
+												return true
+											}
+										}
+									}
+								}
+							}
+						}
 					case *ssa.FieldAddr, *ssa.IndexAddr:
 						// stores through a sub-address
 						if rr := r.(ssa.Value).Referrers(); rr != nil {
@@ -1348,4 +1382,43 @@ func paramReadOnly(pa *ssa.Parameter) bool {
 		}
 	}
 	return true
+}
+
+// ConcreteRecv returns the receiver of a method call and the method called, resolving an
+// interface call whose receiver was made from a concrete value in the same function
+// (`var i I = x; i.M()` is x.M()). fn is nil when the method cannot be resolved.
+func ConcreteRecv(c *ssa.Call) (recv ssa.Value, fn *ssa.Function) {
+	if !c.Call.IsInvoke() {
+		if len(c.Call.Args) == 0 {
+			return nil, nil
+		}
+		return c.Call.Args[0], StaticCalleeFn(c)
+	}
+	v := c.Call.Value
+	for i := 0; i < 3; i++ {
+		if ci, ok := v.(*ssa.ChangeInterface); ok {
+			v = ci.X
+			continue
+		}
+		break
+	}
+	mi, ok := v.(*ssa.MakeInterface)
+	if !ok {
+		return c.Call.Value, nil
+	}
+	prog := c.Parent().Prog
+	m := prog.LookupMethod(mi.X.Type(), c.Call.Method.Pkg(), c.Call.Method.Name())
+	if m != nil && m.Synthetic != "" {
+		// pointer-receiver wrapper of a value method: the declared method is the one it calls
+		for _, b := range m.Blocks {
+			for _, in := range b.Instrs {
+				if c2, ok := in.(ssa.CallInstruction); ok {
+					if f := StaticCalleeFn(c2); f != nil && f.Name() == m.Name() && f.Synthetic == "" {
+						return mi.X, f
+					}
+				}
+			}
+		}
+	}
+	return mi.X, m
 }
